@@ -41,10 +41,10 @@ Section PLAN2.
     - cbn [process]. rewrite Hp. cbn [bind]. rewrite Hpa. reflexivity.
     - now apply (A7 sinv_json ms sel done m swap ps paths).
   Qed.
-  Lemma pinv_drop cur done m swap ps : pinv cur done m swap -> (m = MFresh \/ m = MDropped) ->
-    pinv (PDropP ps cur) (done ++ [PDrop ps]) MDropped swap.
+  Lemma pinv_drop cur done m swap ps : pinv cur done m swap -> (m = MFresh \/ m = MParsed) ->
+    pinv (PDropP ps cur) (done ++ [PDrop ps]) MParsed swap.
   Proof.
-    intros [sel [st' [cur' [Hp Hs]]]] Hm. eexists. exists st', (PDropP ps cur'). split.
+    intros [sel [st' [cur' [Hp Hs]]]] Hm. exists (drop_patch ps sel), st', (PDropP ps cur'). split.
     - cbn [process]. rewrite Hp. cbn [bind]. reflexivity.
     - now apply (A7 sinv_drop ms sel done m swap ps).
   Qed.
@@ -89,11 +89,11 @@ Section PLAN2.
   Definition compat (m : mode) (swap : bool) (s : stage) : Prop :=
     match s with
     | PParser PJson _ => m = MFresh \/ m = MParsed
-    | PDrop _ => m = MFresh \/ m = MDropped
+    | PDrop _ => m = MFresh \/ m = MParsed
     | PLineFilter _ _ _ | PLabelFilter _ => swap = false
     | _ => False
     end.
-  Definition mode_after (s : stage) : mode := match s with PParser _ _ => MParsed | PDrop _ => MDropped | _ => MFilt end.
+  Definition mode_after (s : stage) : mode := match s with PParser _ _ => MParsed | PDrop _ => MParsed | _ => MFilt end.
   Definition step (s : stage) (rn : bool) (cur : planner) : option planner :=
     match plan_stage s false cur with None => None | Some cur2 => Some (if rn then PMainRenew cur2 true else cur2) end.
 
